@@ -59,7 +59,7 @@ func newInterp(prog *ssa.Program, sizes types.Sizes) *interpreter {
 // RunHarness explores every path of the niladic function fn.
 func RunHarness(prog *ssa.Program, sizes types.Sizes, fn *ssa.Function, x *Explorer) {
 	X = x
-	x.Run(nil, fn.String(), func() {
+	x.Run(fn.String(), func() {
 		i := newInterp(prog, sizes)
 		call(i, nil, token.NoPos, fn, nil)
 	})
